@@ -499,13 +499,16 @@ def get_providers_with_resource(ctx, rc_id, amount, tree_root_id=None):
 
 
 @db_api.placement_context_manager.reader
-def get_providers_with_root(ctx, allowed, forbidden):
+def get_providers_with_root(ctx, allowed, forbidden, tree_root_id=None):
     """Returns a set of tuples of (provider ID, root provider ID) of given
     resource providers
 
     :param ctx: Session context to use
     :param allowed: resource provider ids to include
     :param forbidden: resource provider ids to exclude
+    :param tree_root_id: An optional root provider ID. If provided, the results
+                         are limited to the resource providers under the given
+                         root resource provider.
     """
     # SELECT rp.id, rp.root_provider_id
     # FROM resource_providers AS rp
@@ -518,6 +521,8 @@ def get_providers_with_root(ctx, allowed, forbidden):
         cond.append(_RP_TBL.c.id.in_(allowed))
     if forbidden:
         cond.append(~_RP_TBL.c.id.in_(forbidden))
+    if tree_root_id is not None:
+        cond.append(_RP_TBL.c.root_provider_id == tree_root_id)
     if cond:
         sel = sel.where(sa.and_(*cond))
     res = ctx.session.execute(sel).fetchall()
@@ -604,7 +609,12 @@ def get_provider_ids_matching(rg_ctx):
         # all the smaller queries in get_provider_ids_for_traits_and_aggs()
         # would return the internal ID and the root ID as well for each RP.
         provs_with_resource = get_providers_with_root(
-            rg_ctx.context, filtered_rps, forbidden_rp_ids)
+            rg_ctx.context, filtered_rps, forbidden_rp_ids,
+            tree_root_id=rg_ctx.tree_root_id)
+        if not filtered_rps:
+            # No required traits or aggregates were given (the empty set
+            # means "not filtered"): every provider found above matches.
+            return list(provs_with_resource)
 
     # provs_with_resource will contain a superset of providers with IDs still
     # in our filtered_rps set. We return the list of tuples of
